@@ -17,3 +17,6 @@ package rdb
 
 // verifWrapCompiled is the identity without the verif build tag.
 func verifWrapCompiled(db DBI) DBI { return db }
+
+// verifRebucket does nothing without the verif build tag.
+func verifRebucket(*Builder) {}
